@@ -367,6 +367,10 @@ func verify(p *lua.FunctionProto, strConsts func(*lua.FunctionProto) []string, p
 				if code[pc+1] < 512 {
 					bad(pc, "SETLIST extension word holds batch %d (batches up to 511 fit the C field; 0 is never valid)", code[pc+1])
 				}
+				if code[pc+1] >= 1<<26 {
+					// a batch number that large would stand for more than three thousand million fields
+					bad(pc, "SETLIST extension word holds %#x, which is an instruction and not a batch number", code[pc+1])
+				}
 			}
 		case lua.OP_CLOSE:
 			if a > nreg {
